@@ -64,3 +64,9 @@ impl<'a, K, V> Values<'a, K, V> {
             !r ==> exists|i: int| 0 <= i < self.map@.len() && f.ensures((&(#[trigger] self.map@[i]).1,), false),
     { unimplemented!() }
 }
+
+impl<K, V> IndexMap<K, V> {
+    // IndexMap::sort_keys: the same entries re-ordered by key (which order that is depends on K's Ord, not modelled: only 'a permutation')
+    #[verifier::external_body]
+    pub fn sort_keys(&mut self) ensures final(self)@.to_multiset() == old(self)@.to_multiset(), final(self)@.len() == old(self)@.len() { unimplemented!() }
+}
